@@ -49,11 +49,16 @@ func (p c12) Gen(t *rapid.T, env *Env) (*Case, []*Out) {
 	if rapid.IntRange(0, 9).Draw(t, "corpus") < 2 {
 		w, args = GenCorpusWorld(t)
 	}
+	stdin := false
 	if w == nil {
 		SelfNamedDefs = true
-		w = GenWorld(t, maxFiles)
+		w = GenWorldOpt(t, maxFiles, false, true) // may reference one schema over (simulated) HTTP
 		SelfNamedDefs = false
 		args = drawArgs(t, w)
+		// sometimes the first argument is delivered on standard input instead ("-")
+		if afs := argFiles(w, args); len(afs) == len(args) && !afs[0].YAML && len(afs[0].Refs) == 0 && rapid.IntRange(0, 9).Draw(t, "stdin") == 0 {
+			stdin = true
+		}
 	}
 	env.Stats.NoteFeat(w.Feat)
 	var respell func(t *rapid.T) []string
@@ -68,7 +73,20 @@ func (p c12) Gen(t *rapid.T, env *Env) (*Case, []*Out) {
 	}
 	c := &Case{Prop: "C12"}
 	meta := c12Meta{Feat: w.Feat}
-	spec0 := w.Spec("", nil, args)
+	mkSpec := func(prefix string, ko *KeyOrder, a []string) simrt.Spec {
+		if !stdin {
+			return w.Spec(prefix, ko, a)
+		}
+		f := argFiles(w, args)[0]
+		var k *KeyOrder
+		if ko != nil {
+			k = &KeyOrder{Choices: ko.Choices}
+		}
+		sp := w.Spec(prefix, ko, append([]string{"-"}, a[1:]...))
+		sp.Stdin = subst(RenderJSON(f.Doc, k), prefix, w.Root)
+		return sp
+	}
+	spec0 := mkSpec("", nil, args)
 	c.Runs = append(c.Runs, Run{Label: "reference", Spec: spec0})
 	meta.Prefixes = append(meta.Prefixes, "")
 	meta.Kinds = append(meta.Kinds, "reference")
@@ -164,7 +182,7 @@ func (p c12) Gen(t *rapid.T, env *Env) (*Case, []*Out) {
 		if env.Thorough() && mode != 9 && rapid.IntRange(0, 3).Draw(t, "second") == 0 {
 			apply(rapid.IntRange(1, 8).Draw(t, "mode2"))
 		}
-		base := w.Spec(prefix, ko, vargs)
+		base := mkSpec(prefix, ko, vargs)
 		base.MapDefault, base.MapOrders, base.Chunks = sp.MapDefault, sp.MapOrders, sp.Chunks
 		base.Clock, base.Pid, base.Host, base.Env = sp.Clock, sp.Pid, sp.Host, sp.Env
 		label := strings.Join(kinds, "+")
